@@ -53,6 +53,17 @@ def run(run, harness, replay=None):
         e = items[0]
         run.fail("shape:%s:%s" % (what, fam), "%d accepted programs (%s): %s; smallest:\n%s\nobserved: %s" % (len(items), fam, what, e["src"][:700], json.dumps({k: e[k] for k in ("outcome", "input_gates", "noutputs", "msg") if k in e})[:300]),
                  {"event": e, "count": len(items)})
+    # the operator x operand-type matrix: a well-typed application must be accepted, an accepted one must compile
+    if not replay:
+        from opmatrix import run_matrix
+        mev, mmism, mill = run_matrix(run, harness)
+        for idx, detail in mmism:
+            if detail[0] == "well_typed_program_rejected":
+                e = mev[idx]
+                run.fail("matrix-converse:" + e["id"], "an operator application that is well-typed under the documented rules is rejected:\n%s\n%s" % (e["src"], e.get("msg", "")[:300]), {"event": e})
+        for e in mev:
+            if e["accepted"] and e.get("compile_panic"):
+                run.fail("matrix-compile:" + e["id"], "an accepted operator application panics the compiler (%s):\n%s" % (e["compile_panic"][:200], e["src"]), {"event": e})
     # converse clause: well-typed fully annotated generator programs must be accepted
     bases = [e for e in events if e["ev"] == "Types"]
     if bases:
